@@ -11,7 +11,7 @@ from __future__ import annotations
 
 PRIORITY = ["write-exc", "read-exc", "proj:", "eq-false", "rewrite-exc",
             "text-2nd", "verdict", "write-not-repeatable", "source-mutated",
-            "earlier-yaml"]
+            "earlier-yaml", "file-"]
 MUTATION_KINDS = ("source-mutated", "earlier-yaml-unequal-after-writer")
 STRUCTURAL = ("ncols=", "index", "multiindex")
 
@@ -32,8 +32,11 @@ def split(kinds):
 
 
 def _tok(tokens):
+    # *.xtype:* tokens only describe the pair (check argument, dtype), both
+    # of which have their own tokens: they are evidence, not causes
     return [t for t in tokens
-            if not (t.startswith("ncols=") or t in ("index", "multiindex"))]
+            if not (t.startswith("ncols=") or t in ("index", "multiindex")
+                    or ".xtype:" in t)]
 
 
 def _classes(tokens, prefix):
@@ -561,3 +564,71 @@ FLOORS = {'quick': {'class:col.check-opt:ignore_na': 30,
               'strclass:squote': 93,
               'strclass:unicode': 96,
               'strclass:yamlish': 99}}
+
+# counters added with the widened workload (unicode line breaks / control /
+# invisible / astral / edge white space / long text; statistics of another
+# python type than the data = xtype:*; the file form of every route), same
+# rule: minimum over the seeds 0,1,2,3,12345 (quick) / seed 0 (thorough),
+# divided by four.  The deterministic catalogue alone reaches each of them.
+FLOORS["quick"].update(
+{'feature:col.xtype': 17,
+ 'feature:idx.xtype': 3,
+ 'monitor:json:file-read-equals-original': 124,
+ 'monitor:json:file-second-generation': 124,
+ 'monitor:script:file-read-equals-original': 126,
+ 'monitor:script:file-second-generation': 126,
+ 'monitor:yaml:file-read-equals-original': 124,
+ 'monitor:yaml:file-second-generation': 124,
+ 'strarg:astral': 1,
+ 'strarg:control': 3,
+ 'strarg:edgews': 3,
+ 'strarg:invisible': 2,
+ 'strarg:long': 1,
+ 'strarg:ulinebreak': 3,
+ 'strclass:astral': 2,
+ 'strclass:control': 6,
+ 'strclass:edgews': 3,
+ 'strclass:invisible': 3,
+ 'strclass:long': 3,
+ 'strclass:ulinebreak': 4,
+ 'xtype:bigint-on-float': 2,
+ 'xtype:float-frac-on-int': 5,
+ 'xtype:float-on-untyped': 1,
+ 'xtype:float-whole-on-int': 4,
+ 'xtype:int-on-float': 4,
+ 'xtype:nonfinite-on-int': 1})
+FLOORS["thorough"].update(
+{'feature:col.xtype': 262,
+ 'feature:idx.xtype': 44,
+ 'monitor:json:file-read-equals-original': 1407,
+ 'monitor:json:file-second-generation': 1407,
+ 'monitor:script:file-read-equals-original': 1442,
+ 'monitor:script:file-second-generation': 1442,
+ 'monitor:yaml:file-read-equals-original': 1407,
+ 'monitor:yaml:file-second-generation': 1407,
+ 'strarg:astral': 8,
+ 'strarg:control': 66,
+ 'strarg:edgews': 90,
+ 'strarg:invisible': 42,
+ 'strarg:long': 20,
+ 'strarg:ulinebreak': 54,
+ 'strclass:astral': 49,
+ 'strclass:control': 88,
+ 'strclass:edgews': 131,
+ 'strclass:invisible': 71,
+ 'strclass:long': 89,
+ 'strclass:ulinebreak': 112,
+ 'xtype:bigint-on-float': 18,
+ 'xtype:bool-on-float': 6,
+ 'xtype:bool-on-int': 13,
+ 'xtype:float-frac-on-int': 98,
+ 'xtype:float-on-untyped': 15,
+ 'xtype:float-whole-on-int': 70,
+ 'xtype:int-on-float': 50,
+ 'xtype:nonfinite-on-int': 29,
+ 'xtype:number-on-cat': 2,
+ 'xtype:number-on-str': 2})
+# "other" is the residual string class (no special character, not an
+# identifier); only random concatenations produce it and the added classes
+# absorb most of them: a by-product, not a class the workload aims at
+FLOORS["thorough"].pop("strclass:other", None)
